@@ -30,6 +30,7 @@ let parse_acts (w : string list) : string list * act list =
     | "ev" :: k :: r -> AOffer (nat_of_int (int_of_string k)) :: go r
     | "quit" :: r -> AQuit :: go r
     | ("start" | "destroy") as c :: r -> ctl := c :: !ctl; go r
+    | "pt" :: r -> go r      (* a schedule point of the driver between two user actions: no model step *)
     | x :: _ -> failwith ("bad act " ^ x) in
   let a = go w in
   (List.rev !ctl, a)
@@ -304,34 +305,70 @@ let validate_elt (pts : bool) (uacts : act list) (scripts : (int * act list) lis
   (!steps, !st.uaf_dtor || !st.uaf_user || !crashed_dead)
 
 let show_loop = function None -> "-1" | Some i -> string_of_int (int_of_nat i)
+let show_zloop = function None -> "-1" | Some i -> string_of_int (int_of_z i)
 
-let pool_case (n : int) (calls : int) (hashes : int list) (ops : string list) =
+(* the generated getNextLoop far from the start: cursor after k calls by extrapolation of the cursor
+   sequence the GENERATED function produces from 0 (a cycle through 0, or a constant increment with the
+   int wrap-around), then the generated function itself on the next m calls *)
+let gen_tail (n : int) (k : int) (m : int) : string =
+  let zn = z_of_int n in
+  let b = 4 * n + 16 in
+  let cur = Array.make (b + 1) 0 in
+  let c = ref Z0 in
+  for i = 1 to b do
+    let (_, c') = gen_get_next zn !c in
+    c := c'; cur.(i) <- int_of_z c' done;
+  let wrap32 x = ((x + 0x80000000) land 0xffffffff) - 0x80000000 in
+  let start =
+    let period = ref 0 in
+    (try for p = 1 to b do if cur.(p) = 0 then (period := p; raise Exit) done with Exit -> ());
+    if !period > 0 then Some cur.(k mod !period)
+    else begin
+      let d = cur.(1) - cur.(0) in
+      let affine = ref true in
+      for i = 1 to b - 1 do if cur.(i + 1) - cur.(i) <> d then affine := false done;
+      if !affine then Some (wrap32 (k * d)) else None end in
+  match start with
+  | None -> "unknown"
+  | Some s ->
+      let c = ref (z_of_int s) in
+      let out = Buffer.create 64 in
+      for _ = 1 to m do
+        let (x, c') = gen_get_next zn !c in
+        Buffer.add_string out (" " ^ show_zloop x); c := c' done;
+      Buffer.contents out
+
+let pool_case (n : int) (calls : int) (hashes : int list) (ops : string list) (big : int) (tail : int) =
   let nn = nat_of_int n in
-  let run1 f ops = fst (f nn O ops) in
   let nexts = List.init calls (fun _ -> PNext) in
   let hs = List.concat_map (fun h -> [PHash (nat_of_int h); PHash (nat_of_int h)]) hashes in
   let mixed = List.map (fun o -> if o = "n" then PNext else PHash (nat_of_int (int_of_string (String.sub o 1 (String.length o - 1))))) ops in
-  let out tag f =
+  let out tag show f start =
     (* the C++ driver makes the getNextLoop calls first, then each hash code twice *)
-    let (r1, cur) = f nn O nexts in
-    Printf.printf "%snext%s\n" tag (String.concat "" (List.map (fun x -> " " ^ show_loop x) r1));
-    let (r2, cur2) = f nn cur hs in
-    let rec pairs = function a :: b :: r -> (if a = b then show_loop a else "-3") :: pairs r | _ -> [] in
+    let (r1, cur) = f start nexts in
+    Printf.printf "%snext%s\n" tag (String.concat "" (List.map (fun x -> " " ^ show x) r1));
+    let (r2, cur2) = f cur hs in
+    let rec pairs = function a :: b :: r -> (if a = b then show a else "-3") :: pairs r | _ -> [] in
     Printf.printf "%shash%s\n" tag (String.concat "" (List.map (fun x -> " " ^ x) (pairs r2)));
     if ops <> [] then begin
-      let (r3, _) = f nn cur2 mixed in
-      Printf.printf "%sops%s\n" tag (String.concat "" (List.map (fun x -> " " ^ show_loop x) r3)) end in
-  ignore run1;
-  out "" (pool_run pinned_pshape);
-  out "g" gen_pool_run
+      let (r3, _) = f cur2 mixed in
+      Printf.printf "%sops%s\n" tag (String.concat "" (List.map (fun x -> " " ^ show x) r3)) end in
+  out "" show_loop (fun c o -> pool_run pinned_pshape nn c o) O;
+  out "g" show_zloop (fun c o -> gen_pool_run (z_of_int n) c o) Z0;
+  if big > 0 then begin
+    let before = calls + List.length (List.filter (fun o -> o = "n") ops) + big in
+    (* model: the closed form of C05_pool_any_sequence *)
+    Printf.printf "tail %d%s\n" before
+      (String.concat "" (List.init tail (fun i -> if n = 0 then " -1" else " " ^ string_of_int ((before + i) mod n))));
+    Printf.printf "gtail %d%s\n" before (gen_tail n before tail) end
 
 let () =
   let cur_id = ref "" and pts = ref true and prog = ref [] and scripts = ref [] in
   let in_trace = ref false and lines = ref [] and kind = ref "elt" in
-  let n = ref 0 and calls = ref 0 and hashes = ref [] and ops = ref [] in
+  let n = ref 0 and calls = ref 0 and hashes = ref [] and ops = ref [] and big = ref 0 and tail = ref 0 in
   let finish () =
     Printf.printf "case %s\n" !cur_id;
-    (if !kind = "pool" then (try pool_case !n !calls !hashes !ops with Failure s -> Printf.printf "REJECT 0: %s | -\n" s)
+    (if !kind = "pool" then (try pool_case !n !calls !hashes !ops !big !tail with Failure s -> Printf.printf "REJECT 0: %s | -\n" s)
      else if !kind <> "elt" then print_string "accepted 0 uaf=0\n"
      else
        try
@@ -352,12 +389,14 @@ let () =
          match w with
          | "case" :: id :: rest ->
              cur_id := id; prog := []; scripts := []; lines := []; pts := true; kind := "elt";
-             n := 0; calls := 0; hashes := []; ops := [];
+             n := 0; calls := 0; hashes := []; ops := []; big := 0; tail := 0;
              List.iter (fun t ->
                  if t = "pts=0" then pts := false;
                  (match tok_after t "kind=" with Some v -> kind := v | None -> ());
                  (match tok_after t "n=" with Some v -> n := int_of_string v | None -> ());
-                 (match tok_after t "calls=" with Some v -> calls := int_of_string v | None -> ())) rest
+                 (match tok_after t "calls=" with Some v -> calls := int_of_string v | None -> ());
+                 (match tok_after t "big=" with Some v -> big := int_of_string v | None -> ());
+                 (match tok_after t "tail=" with Some v -> tail := int_of_string v | None -> ())) rest
          | "P" :: r -> prog := r
          | "S" :: id :: r -> scripts := (int_of_string id, snd (parse_acts r)) :: !scripts
          | "H" :: r -> hashes := List.map int_of_string r
